@@ -26,3 +26,7 @@ Print Assumptions ReaderEquiv.tr_ReadBool_equiv.
 Print Assumptions ReaderEquiv.tr_ReadString_equiv.
 Print Assumptions ReaderSliceEquiv.tr_ReadSliceUint8_equiv.
 Print Assumptions ReaderSliceEquiv.tr_ReadBytes_equiv.
+Print Assumptions ReaderEquiv.seek_p_fuel.
+Print Assumptions ReaderEquiv.tr_SkipToNoCheck_total.
+Print Assumptions ReaderEquiv.tr_ReadInt_total.
+Print Assumptions ReaderEquiv.tr_ReadString_total.
